@@ -147,7 +147,7 @@ def method_skeleton(fn, name: str):
                 # attribute of a frame-local object
                 if attr == 'is_alive' and is_method:
                     callee_stack.append('is_alive'); tag = 'm'
-                elif attr == 'append' and is_method and prev.argval == 'exc':
+                elif attr == 'append' and is_method:      # a frame-local list (which one: the `ast` half)
                     callee_stack.append('local'); tag = 'm'
                 else:
                     raise SkeletonError(f'{name}@{i.offset}: unknown attribute {prev.argval}.{attr}')
@@ -231,7 +231,7 @@ def method_skeleton(fn, name: str):
                 pp is not None and pp.opname == 'LOAD_ATTR' and pp.argval == '_active')
             if shared_operand:
                 if i.argrepr == '-' and pp is not None and pp.opname == 'LOAD_ATTR' and pp.argval == '_active' \
-                        and prev.opname in LOADS and prev.argval == 'done':
+                        and prev.opname in LOADS and prev.argval != 'self':
                     emit(i, 'SetDiff')
                 else:
                     raise SkeletonError(f'{name}@{i.offset}: BINARY_OP {i.argrepr} on self._active')
@@ -291,12 +291,15 @@ def skeleton(repo: Path) -> dict[str, list[tuple[int, str, str]]]:
 
 
 def translate(repo: Path) -> str:
+    from translate.donecb_ast import translate_ast
     sk, _ = skeleton(repo)
+    ast_lines = translate_ast(repo)
     L = ['(** GENERATED by translate/donecb_skeleton.py from',
          f'    {SRC} (dis, CPython {sys.version_info[0]}.{sys.version_info[1]}) -- do not edit.',
          '    Per method: the ordered list of accesses to state reachable from [self];',
          '    the boundary between two consecutive entries is a thread-switch point. *)',
-         'From Coq Require Import List.', 'Import ListNotations.', '',
+         'From Coq Require Import List.', 'Import ListNotations.',
+         'From NL Require Import DoneCb.SkelSyntax.', '',
          'Inductive roattr := ADone | AInterval | AThread | ALock.', '',
          'Inductive access :=',
          '| LoadActive | StoreActive | GetIter | IterNext | IsAlive | SetAdd | SetDiff | Contains',
@@ -308,6 +311,10 @@ def translate(repo: Path) -> str:
         L.append(f'Definition {nm}_skeleton : list access :=')
         L.append('  [' + '; '.join(a for _, a, _ in sk[m]) + '].')
         L.append('')
+    L += ['(** `ast` half: every method as a statement tree (DoneCb/SkelSyntax.v): polarity of the tests,',
+          '    right-hand sides of the stores, arguments of the calls, __init__, defaults.',
+          '    Obligations: DoneCb/SkelFacts.v, theorems C18_skelfacts_... *)', '']
+    L += ast_lines
     return '\n'.join(L)
 
 
